@@ -12,10 +12,10 @@ import random
 from vlib import *
 
 PID = "tcplegal"
-MC_INV = ["SPECIFICATION Spec", "INVARIANTS LegalTransport HandlesExact BookkeepingExact LeakFree CancelledNeverOpened",
+MC_INV = ["SPECIFICATION Spec", "INVARIANTS LegalTransport HandlesExact BookkeepingExact LeakFree CancelledNeverOpened NoLostWakeup",
           "VIEW View", "CHECK_DEADLOCK FALSE"]
 BASE = {"Addrs": "<- Addrs2", "Peers": "<- PeersDef", "MaxCid": 3, "MaxOpenLen": 2, "Kind": "tcp", "Mutant": ""}
-MUTANTS = ["cancel-handle-kept", "cancelled-open-surfaces", "dial-entry-kept", "dial-failure-swallowed"]
+MUTANTS = ["cancel-handle-kept", "cancelled-open-surfaces", "dial-entry-kept", "dial-failure-swallowed", "inbound-failure-ends-poll"]
 
 ASSUME = [
     "the caller keeps its side of the interface: connection ids passed to dial()/open() are fresh (the driver allocates "
@@ -48,18 +48,21 @@ TRANSPORTS = {
     "ws": {"spec": "TcpTransportMC.tla", "base": dict(BASE, Kind="ws"), "T": 250, "bound": 500},
     "quic": {"spec": "QuicTransportMC.tla", "base": dict(QBASE), "T": 250, "bound": 3250},
 }
-QUIC_MUTANTS = ["negotiate-forgets-dialer"]
+QUIC_MUTANTS = ["negotiate-forgets-dialer", "inbound-failure-ends-poll"]
 
 
 def mc_configs(ctx, tr):
+    # (the models separate "the work of a future finishes" from "poll_next reports it", so that several completions can
+    # pile up while the stream is not polled; the graphs are ~7 x larger than with atomic completion+report)
     base = TRANSPORTS[tr]["base"]
+    quick = [("addr3", dict(base, Addrs="<- Addrs3", MaxCid=2, MaxOpenLen=2))]
     if tr == "tcp":
-        if ctx.quick():
-            return [("cid3", dict(base)), ("addr3", dict(base, Addrs="<- Addrs3", MaxCid=2))]
-        return [("cid3", dict(base)), ("addr3cid3", dict(base, Addrs="<- Addrs3")), ("cid4len1", dict(base, MaxCid=4, MaxOpenLen=1))]
+        quick.append(("cid3", dict(base, Addrs="<- Addrs13", MaxCid=3, MaxOpenLen=1)))
     if ctx.quick():
-        return [("addr3", dict(base, Addrs="<- Addrs3", MaxCid=2))]
-    return [("addr3", dict(base, Addrs="<- Addrs3", MaxCid=2)), ("cid3", dict(base, Addrs="<- Addrs2", MaxCid=3))]
+        return quick
+    more = [("cid3", dict(base, Addrs="<- Addrs13", MaxCid=3, MaxOpenLen=1))] if tr != "tcp" else \
+        [("cid3len2", dict(base, Addrs="<- Addrs2", MaxCid=3, MaxOpenLen=2)), ("cid4", dict(base, Addrs="<- Addrs1", MaxCid=4, MaxOpenLen=1))]
+    return quick + more
 
 
 # ----------------------------------------------------------------------------- model checking
@@ -83,8 +86,10 @@ def generate(ctx, tr):
     spec, base = TRANSPORTS[tr]["spec"], TRANSPORTS[tr]["base"]
     # ws / quic: the address without /p2p matters (refused); the quick tier generates from {a1, a3}, thorough from all three
     small = dict(base, MaxCid=2) if tr == "tcp" else dict(base, Addrs="<- Addrs13" if ctx.quick() else "<- Addrs3", MaxCid=2)
+    if ctx.quick():
+        small["MaxOpenLen"] = 1     # quick: opens of several addresses come from the simulation sample and the random schedules
     behs, g = tlc_generate(ctx, spec, write_cfg(ctx, "gen_%s.cfg" % tr, small, gl), timeout=1200)
-    g["cfg"] = "%s: %s/MaxCid=2 (one behaviour per transition of the graph)" % (tr, small["Addrs"][3:])
+    g["cfg"] = "%s: %s/MaxCid=2/MaxOpenLen=%d (one behaviour per transition of the graph)" % (tr, small["Addrs"][3:], small["MaxOpenLen"])
     stats, deep = [g], []
     if tr == "tcp" or not ctx.quick():
         deep, g2 = tlc_generate(ctx, spec, write_cfg(ctx, "sim_%s.cfg" % tr, dict(base, Addrs="<- Addrs3", MaxCid=3), gl), timeout=600,
@@ -142,12 +147,19 @@ def from_behaviour(steps, rnd, sid, tr, src):
             inbound_n += 1
         elif s["a"] in ("dial", "open", "dial_bad"):
             ref[s["c"]] = "m%d" % s["c"]
-    plan_conn = {s["c"]: s["res"] for s in steps if s["a"] == "p_conn"}
-    plan_raw = {s["c"]: s for s in steps if s["a"] == "p_raw"}
+    plan_conn = {s["c"]: s["res"] for s in steps if s["a"] == "p_conn" or (s["a"] == "done" and s["k"] != "raw")}
+    plan_raw = {s["c"]: dict({"errs": [], "addr": None}, **s) for s in steps if s["a"] == "done" and s["k"] == "raw"}
+    plan_raw.update({s["c"]: s for s in steps if s["a"] == "p_raw"})
     listener_cids = [s["c"] for s in steps if s["a"] == "p_listener"]
     out, nconnect = [], 0
-    for s in steps:
+    T = TRANSPORTS[tr]["T"]
+    for i, s in enumerate(steps):
         a = s["a"]
+        if a == "done":
+            # several completions before the next poll_next: the application is busy meanwhile (the driver does not poll)
+            if (i == 0 or steps[i - 1]["a"] != "done") and i + 1 < len(steps) and steps[i + 1]["a"] == "done":
+                out.append({"op": "hold", "ms": rnd.choice([150, T + 150, T + 150])})
+            continue
         if a == "dial":
             res = plan_conn.get(s["c"])
             kind = addr_kind(rnd, s["addr"], True, tr) if res == "ok" else addr_kind(rnd, s["addr"], False, tr) if res == "err" \
@@ -221,14 +233,50 @@ def random_schedule(rnd, sid, tr="tcp"):
         elif x < 0.77:
             steps.append({"op": "connect", "kind": rnd.choice(["node", "node", "silent", "garbage", "close", "node_wrongid"]), "n": rnd.randrange(4)})
             ins += 1
-        elif x < 0.82:
-            steps.append({"op": "sleep", "ms": rnd.choice([1, 10, 40, T // 2])})
+        elif x < 0.84:
+            steps.append({"op": "hold", "ms": rnd.choice([1, 10, 40, T // 2, T + 100, 2 * T + 100])})
         else:
             steps.append({"op": "wait", "ms": rnd.choice(waits)})
     pol = {"on_opened": rnd.choice(["negotiate", "cancel_negotiate", "none", "random"]),
            "on_est": rnd.choice(["accept", "reject", "none", "random"]),
            "on_inbound": rnd.choice(["accept", "accept", "reject", "none", "random"])}
     return {"id": sid, "src": "random", "cfg": cfg_of(tr, rnd, pol, reuse=(tr != "quic" and rnd.random() < 0.25)), "steps": steps}
+
+
+def hold_family(tr, sid0, reps):
+    """The application is busy (`hold`: nobody polls the stream) while a failing inbound handshake and the outcome of an
+    outbound operation both become ready; afterwards nothing but the stream's own waker may cause a poll. Variants:
+    queue (both futures pushed, first poll sees the inbound failure first), busy (the same with a hold before that poll),
+    timers (both futures polled once, then a hold that outlasts both time-outs)."""
+    T = TRANSPORTS[tr]["T"]
+    none = {"on_opened": "none", "on_est": "none", "on_inbound": "none"}
+    inbound = ["node_wrongid"] if tr == "quic" else ["close", "garbage", "silent"]
+    outbound = {
+        "dial-refused": [{"op": "dial", "ref": "d", "addr": {"kind": "refused", "n": 1}}],
+        "dial-blackhole": [{"op": "dial", "ref": "d", "addr": {"kind": "blackhole", "n": 1}}],
+        "dial-healthy": [{"op": "dial", "ref": "d", "addr": {"kind": "healthy", "n": 1}}],
+        "negotiate": [{"op": "negotiate", "ref": "o"}],
+        "open-refused": [{"op": "open", "ref": "d", "addrs": [{"kind": "refused", "n": 1}]}],
+    }
+    out, sid = [], sid0
+    rnd = random.Random("hold-%s" % tr)
+    for _ in range(reps):
+        for ik in inbound:
+            for name, ob in outbound.items():
+                for variant in ("queue", "busy", "timers"):
+                    pre = [{"op": "open", "ref": "o", "addrs": [{"kind": "healthy", "n": 2}]},
+                           {"op": "expect", "ref": "o", "ms": 3 * TRANSPORTS[tr]["bound"] + 500, "want": "opened"}] if name == "negotiate" else []
+                    steps = pre + [{"op": "connect", "kind": ik, "n": rnd.randrange(4)}, {"op": "expect", "inbound": True, "ms": 2000},
+                                   {"op": "accept_pending", "ref": "i0"}]
+                    if variant == "queue":
+                        steps += ob
+                    elif variant == "busy":
+                        steps += [{"op": "hold", "ms": 150}] + ob + [{"op": "hold", "ms": rnd.choice([50, T + 150])}]
+                    else:
+                        steps += ob + [{"op": "wait", "ms": 5}, {"op": "hold", "ms": 2 * T + 200}]
+                    sid += 1
+                    out.append({"id": sid, "src": "hold", "cfg": cfg_of(tr, rnd, none), "steps": steps, "family": "%s/%s/%s" % (ik, name, variant)})
+    return out
 
 
 BUDGET = {  # (TLC one-per-transition sample, TLC simulation sample, seeded random) per transport
@@ -262,6 +310,7 @@ def make_schedules(ctx, tr, bfs, deep, sid0):
     for _ in range(n_rand):
         sid += 1
         scheds.append(random_schedule(rnd, sid, tr))
+    scheds += hold_family(tr, sid, (2 if tr == "tcp" else 1) if ctx.quick() else 6)
     return scheds
 
 
@@ -331,7 +380,7 @@ REQUIRED_OTHER = ["dial:ok", "dial:err", "open:ok", "cancel:ok", "negotiate:ok",
 
 def run_harness(ctx, scheds, tag="", env=None, conc=32):
     sp = ctx.path("schedules%s.jsonl" % tag)
-    write_jsonl(sp, [{k: v for k, v in s.items() if k != "plan"} for s in scheds])
+    write_jsonl(sp, [{k: v for k, v in s.items() if k not in ("plan", "family")} for s in scheds])
     summ, _ = harness(ctx, "tcplegal", ["--schedules", sp, "--out", ctx.path("trace%s.ndjson" % tag), "--seed", ctx.seed, "--conc", conc, "--healthy", 6, "--dialers", 4],
                       timeout=3000, env=env)
     return summ, read_lines(ctx.path("trace%s.ndjson" % tag))
@@ -406,7 +455,7 @@ def check(ctx):
             "model": TRANSPORTS[tr]["spec"], "model_runs": mc[tr], "generation": gstats[tr],
             "executions_validated": sum(1 for sg in segs if transport_of(sg[0]) == tr), "lines_validated": len(tl),
             "distinct_nontrivial": distinct, "observables": kinds,
-            "schedules": {k: sum(1 for sc in mine if sc["src"] == k) for k in ("tlc", "tlc-sim", "random")},
+            "schedules": {k: sum(1 for sc in mine if sc["src"] == k) for k in ("tlc", "tlc-sim", "random", "hold")},
             "timeout_ms": TRANSPORTS[tr]["T"], "operation_bound_ms": TRANSPORTS[tr]["bound"],
             "violations": sorted({v["sig"] for v in violations if v["sig"].startswith(tr + ":")}),
             "impl_divergences": sum(1 for seg, _ in drift if transport_of(seg[0]) == tr),
@@ -459,6 +508,7 @@ def selftest(ctx):
                    "steps": [{"op": "dial", "ref": "a", "addr": {"kind": "refused", "n": 0}}, {"op": "open", "ref": "b", "addrs": [{"kind": "blackhole", "n": 0}]},
                              {"op": "wait", "ms": 20}, {"op": "cancel", "ref": "b"}, {"op": "dial", "ref": "c", "addr": {"kind": "healthy", "n": 1}},
                              {"op": "expect", "ref": "c", "ms": 2000}, {"op": "accept", "ref": "c"}]})
+    scheds += hold_family("tcp", 100, 1)
     summ, lines = run_harness(ctx, scheds, tag="s")
     _, _, base = judge(ctx, lines, scheds, tag="s")
     if base:
@@ -521,17 +571,16 @@ def selftest(ctx):
         _, _, rej = validate_all(ctx, "TransportIfaceTrace.tla", "TransportIfaceTrace.cfg", mut, tag="m")
         log("selftest binding %-30s line %d -> %s" % (kind, i + 1, "flagged (%s)" % sorted({r.reason for r in rej})[0] if rej else "NOT FLAGGED"))
         ok &= bool(rej)
-    for fault in ["drop_dial_failure", "event_after_cancel", "leak_pending_dials"]:
+    for fault in ["drop_dial_failure", "event_after_cancel", "leak_pending_dials", "lose_wake_after_hold"]:
         _, fl = run_harness(ctx, scheds, tag="f", env={"VERIF_FAULT": fault})
         _, _, viol = judge(ctx, fl, scheds, tag="f")
         log("selftest harness fault %-22s -> %s" % (fault, "flagged (%s)" % sorted({v["sig"] for v in viol})[:2] if viol else "NOT FLAGGED"))
         ok &= bool(viol)
-    for m in MUTANTS + QUIC_MUTANTS:
-        spec, base = ("QuicTransportMC.tla", QBASE) if m in QUIC_MUTANTS else ("TcpTransportMC.tla", BASE)
+    for spec, base, m in [("TcpTransportMC.tla", BASE, m) for m in MUTANTS] + [("QuicTransportMC.tla", QBASE, m) for m in QUIC_MUTANTS]:
         r = tlc_mc(ctx, spec, write_cfg(ctx, "neg_%s.cfg" % m, dict(base, MaxCid=2, Mutant=m), MC_INV), workers=4,
                    expect_violation=True, timeout=900)
         viol = re.findall(r"Invariant (\w+) is violated", r["out"])
-        log("selftest negative model %-26s -> %s" % (m, "violates %s" % viol[0] if viol else "NO VIOLATION"))
+        log("selftest negative model %-16s %-26s -> %s" % (spec[:-6], m, "violates %s" % viol[0] if viol else "NO VIOLATION"))
         ok &= bool(viol)
     log("SELFTEST %s" % ("ok" if ok else "FAILED"))
     return 0 if ok else 2
